@@ -34,7 +34,7 @@ ASSUMPTIONS = ["virtual clock; verdict on virtual instants (+-1 us)",
 REQUIRED_OBS = ["heartbeats_compared", "timeout_resets_predicted_and_seen",
                 "never_answered_from_start", "all_answered_no_reset", "custom_configs",
                 "reset_after_previous_reset", "after_init_shutdown_cycle",
-                "after_a_failed_init_and_shutdown",
+                "after_a_failed_init_and_shutdown", "reset_after_a_refused_reconnection",
                 "ticks_while_link_down", "heartbeats_after_a_skipped_tick", "chatter_frames",
                 "initialised_after_init_gave_up", "two_clients_in_one_process", "application_version_requests",
                 "tick_with_full_queue"]
@@ -71,6 +71,15 @@ def predict(T0, I, W, pattern, horizon, outages=()):
             break
         same = [c for c in cands if abs(c[1] - t) < 1e-6]
         if len(same) > 1 and any(c[0] in ("down", "up") for c in same):
+            if connected and {c[0] for c in same} == {"dl", "down"}:
+                # the heartbeat's own reset - and the console is unreachable from then on:
+                # the next period still counts from this reset
+                resets.append(t)
+                epoch += 1
+                deadline = t + W
+                edges.pop(0)
+                connected = False
+                continue
             return reqs, resets, t
         if kind in ("down", "up"):
             edges.pop(0)
@@ -140,6 +149,10 @@ def cases(tier, seed):
             yield {"gen": gen, "mode": "api", "pattern": pat, "cycle": True,
                    "vary_version": True}
             yield {"gen": gen, "mode": "api", "pattern": pat, "cycle": "failed"}
+            if pat[0] is None:
+                # the console is unreachable for a while right after the first timeout reset
+                for n in (10, 35):
+                    yield {"gen": gen, "mode": "api", "pattern": pat, "refuse_after_reset": n}
             # the console keeps sending other frames (status, error text, names, unknown
             # extended ids) while it does not answer heartbeats: only a console-version
             # response counts
@@ -234,6 +247,8 @@ def observe(log, m0, m1):
     reqs = [t for _, t, k, d in ev if k == "CON.frame"
             and d["cmd"]["kind"] == "version_request"]
     downs = [d["down"] for _, t, k, d in ev if k == "SCRIPT.outage"]
+    downs = [a for a in downs if not any(k == "SCRIPT.outage" and abs(d["down"] - a) < 1e-6
+                                         and d.get("after_reset") for _, t, k, d in ev)]
     closes = [t for _, t, k, d in ev if k == "NET.close" and not d["fault"]
               and not any(abs(t - a) < 1e-6 for a in downs)]
     opens = [t for _, t, k, d in ev if k == "NET.open"]
@@ -262,8 +277,9 @@ def compare(viol, obs, what, want_reqs, want_resets, reqs, closes, opens, info):
               expected=want_resets[:6])
     else:
         for t in closes:
-            if not any(abs(t - o) < 1e-6 for o in opens):
-                v("no-reconnect-after-heartbeat-reset", at=t)
+            up = (info.get("late_up") or {}).get(round(t, 6), t)
+            if not any(abs(up - o) < 1e-6 for o in opens):
+                v("no-reconnect-after-heartbeat-reset", at=t, expected_open=up)
         if want_resets:
             obs["timeout_resets_predicted_and_seen"] = len(want_resets)
             if len(want_resets) > 1:
@@ -283,7 +299,7 @@ def note_outages(obs, case, wins, want_reqs, T0, I, tie, log, out):
         obs["ticks_while_link_down"] = len(skipped)
         if any(t > max(skipped) for t in want_reqs):
             obs["heartbeats_after_a_skipped_tick"] = 1
-    full = any(o.get("cmds", 0) >= 10 for o in case["outages"])
+    full = any(o.get("cmds", 0) >= 10 for o in case.get("outages") or [])
     if full and skipped:
         obs["tick_with_full_queue"] = 1
     obs["outage_runs"] = 1
@@ -397,6 +413,16 @@ def run_api(case):
                 return table[("zone_on", "zone_off", "ac_power_on")[i % 3]][0](w)
             drv = loop.create_task(drive_outages(loop, net, log, out["T0"], case["outages"],
                                                  command))
+        if case.get("refuse_after_reset"):
+            # the reconnection after the first heartbeat-timeout reset is refused n times (one
+            # attempt at once, then one every 2 s)
+            async def refuser():
+                await asyncio.sleep(329.0)
+                for _ in range(case["refuse_after_reset"]):
+                    net.script.append(("refuse", 0.0))
+                log.add("SCRIPT.outage", down=out["T0"] + 330.0, after_reset=True,
+                        up=out["T0"] + 330.0 + 2.0 * case["refuse_after_reset"])
+            loop.create_task(refuser())
         await asyncio.sleep(N * 300.0 + 10.0)
         out["end"] = loop.time()
         out["m1"] = log.mark()
@@ -417,6 +443,10 @@ def run_api(case):
     wins = outage_windows(log, out["m0"], out["m1"])
     want_reqs, want_resets, tie = predict(T0, 300.0, 330.0, pattern, out["end"], wins)
     reqs, closes, opens = observe(log, out["m0"], out["m1"])
+    if case.get("refuse_after_reset"):
+        info["late_up"] = {round(T0 + 330.0, 6): T0 + 330.0 + 2.0 * case["refuse_after_reset"]}
+        if len(want_resets) > 1 and not viol:
+            obs["reset_after_a_refused_reconnection"] = 1
     if case.get("user_checks"):
         # (all heartbeats are answered in these cases: the application's own version requests
         # simply appear in addition to the periodic ones)
